@@ -304,10 +304,13 @@ def r20_3(ctx):
                       "the new state depends on row b of the state and of the Brownian increment only")
     dom = solvers.Domains(model)
     n = 0
-    for sc in steps.scenarios(model, dom):
-        construct = f"{sc.step_fi.key}::R20.3::{sc.cls.name}::{sc.noise_type}::{','.join(sorted(k for k, v in sc.options.items() if v))}"
+    # sizes: several state channels, and a single one (shapes with a 1 in them are where fast paths and broadcasting live)
+    sizes = ((4, 3), (3, 1), (2, 2)) if ctx.tier == "thorough" else ((3, 2), (3, 1))
+    for sc, (B0, d0) in [(sc, sz) for sc in steps.scenarios(model, dom) for sz in sizes]:
+        construct = (f"{sc.step_fi.key}::R20.3::{sc.cls.name}::{sc.noise_type}::"
+                     f"{','.join(sorted(k for k, v in sc.options.items() if v))}" + ("" if (B0, d0) == sizes[0] else f"::B={B0},d={d0}"))
         try:
-            outs, B, d = index_step(model, sc, dom, *((4, 3) if ctx.tier == "thorough" else (3, 2)))
+            outs, B, d = index_step(model, sc, dom, B0, d0)
         except SimRaise as e:
             raise AnalysisError(f"R20.3: {sc.label}: the step raises {e.exc_name} on index-level tensors: {e.message}",
                                 where=astq.loc(sc.step_fi))
@@ -326,9 +329,9 @@ def r20_3(ctx):
         rep.check(not bad, "R20.3", astq.loc(sc.step_fi), construct,
                   f"{sc.label}: {'; '.join(bad)}: batch rows are not independent (changing another row changes this one)",
                   "row b of the new state depends on row b only")
-    if n < 30:
+    if n < 60:
         raise AnalysisError(f"R20.3 evaluated only {n} step scenarios")
-    ctx.floor("R20.3", 30)
+    ctx.floor("R20.3", 60)
 
 
 _run_c20b = run
